@@ -46,10 +46,25 @@ static int c08_async_send(uv_async_t* a);
 #define uv_async_send c08_async_send
 #define pthread_atfork(a, b, c) 0
 
+/* monitor: a node that is already linked into one of the pool's queues must not be inserted again
+ * (marker queued twice / request queued twice = queue corruption) */
+static const char* c08_node_linked(struct uv__queue* q);
+static void c08_queue_insert_tail(struct uv__queue* h, struct uv__queue* q) {
+  const char* where = c08_node_linked(q);
+  if (where != NULL) {
+    printf("MON queue-double-insert node already linked in %s is inserted again (queue corruption)\n", where);
+    fflush(stdout);
+    _exit(3);
+  }
+  uv__queue_insert_tail(h, q);
+}
+#define uv__queue_insert_tail c08_queue_insert_tail
+
 #include "threadpool.c"
 
 #undef uv_mutex_lock
 #undef uv_mutex_unlock
+#undef uv__queue_insert_tail
 
 /* ------------------------------------------------------------------ program state */
 #define MAXITEMS 64
@@ -84,6 +99,25 @@ static struct item* item_of_node(struct uv__queue* q) {
   if (p < (char*) IT || p >= (char*) (IT + MAXITEMS) || (p - (char*) IT) % sizeof(struct item) != 0)
     return NULL;
   return (struct item*) p;
+}
+
+static int c08_in_queue(struct uv__queue* h, struct uv__queue* q) {
+  struct uv__queue* p;
+  int k = 0;
+  if (h->next == NULL) return 0;
+  for (p = h->next; p != h && p != NULL && k < 4 * MAXITEMS; p = p->next, k++)
+    if (p == q) return 1;
+  return 0;
+}
+
+static const char* c08_node_linked(struct uv__queue* q) {
+  int i;
+  if (nthreads == 0) return NULL;
+  if (c08_in_queue(&wq, q)) return "wq";
+  if (c08_in_queue(&slow_io_pending_wq, q)) return "slow_io_pending_wq";
+  for (i = 0; i < nloops; i++)
+    if (c08_in_queue(&LP[i].loop.wq, q)) return "loop->wq";
+  return NULL;
 }
 
 /* ------------------------------------------------------------------ call-outs */
